@@ -132,6 +132,25 @@ var modules = []Module{
 			{Pkg: "chain/params", Name: "MaxCodeSize", Lean: "MaxCodeSize"},
 		},
 	},
+	{
+		// network-facing bounds: the frame-length guards of the p2p readers (C15); the flush limits of the sync caches are NetCache (C20)
+		File: "Net.lean", NS: "LemoGen.Net",
+		Exprs: []ExprSpec{
+			{Pkg: "network/p2p", Recv: "Peer", Func: "readConn", Kind: "ifcond", LHS: "MaxPackageLength", Nth: 0, Lean: "frameTooLongCond"},
+			{Pkg: "network/p2p", Func: "readHandshakeBuf", Kind: "ifcond", LHS: "MaxPackageLength", Nth: 0, Lean: "hsFrameBadLenCond"},
+		},
+		Consts: []ConstSpec{
+			{Pkg: "chain/params", Name: "MaxPackageLength", Lean: "MaxPackageLength"},
+			{Pkg: "network/p2p", Name: "PackageLength", Lean: "PackageLength"},
+		},
+	},
+	{
+		File: "NetCache.lean", NS: "LemoGen.NetCache",
+		Exprs: []ExprSpec{
+			{Pkg: "network", Recv: "ConfirmCache", Func: "Push", Kind: "ifcond", LHS: "len(c.cache)", Nth: 0, Lean: "confirmCacheFlushCond"},
+			{Pkg: "network", Recv: "BlockCache", Func: "Add", Kind: "ifcond", LHS: "len(c.cache)", Nth: 0, Lean: "blockCacheFlushCond"},
+		},
+	},
 }
 
 // ---------------------------------------------------------------------------
